@@ -1,7 +1,7 @@
 import ast, z3
-from vf2.spec import *
-from vf2.idioms import is_call
-from vf2.sym import Unsupported
+from vf.spec import *
+from vf.idioms import is_call
+from vf.sym import Unsupported
 Clique = Elem("Clique"); P = PairT(INT, INT); LP = ListT(P); LC = ListT(Clique)
 CSIZE = z3.Function("csize", Clique.sort(), z3.IntSort())
 CMEM = z3.Function("cmem", Clique.sort(), z3.IntSort(), z3.BoolSort())
